@@ -48,6 +48,11 @@ def check_validate_arrays(prog, rep, rule, entry):
                 pairs = [(t0, n.value)]
             elif isinstance(t0, ast.Tuple) and isinstance(n.value, ast.Tuple) and len(t0.elts) == len(n.value.elts):
                 pairs = list(zip(t0.elts, n.value.elts))
+            elif isinstance(t0, (ast.Tuple, ast.List)) and len(t0.elts) == 2 and isinstance(t0.elts[0], ast.Name) and \
+                    isinstance(t0.elts[1], ast.Starred) and isinstance(t0.elts[1].value, ast.Name) and norm(n.value) == va:
+                # first, *others = arrays
+                firsts.add(t0.elts[0].id)
+                rests.add(t0.elts[1].value.id)
             for t_, v_ in pairs:
                 if isinstance(t_, ast.Name) and norm(v_).replace(' ', '') == '%s[0]' % va:
                     firsts.add(t_.id)
